@@ -43,6 +43,7 @@ def rnd_user_param(rng, name, earlier_ints):
         return {"name": name, "type": int_type(name, rng.choice([1, 8]), tkind="bool", default=shift if rng.random() < 0.4 else None)}, False
     if r < 0.70:   # calibrated integer
         cal = rng.choice([["poly", [[docs.fnum(0.5), 1], [docs.fnum(-1.0), 0]]], ["poly", [[docs.fnum(2), 2], [docs.fnum(0.25), 0]]],
+                          ["poly", [[docs.fnum(2.5), 0], [docs.fnum(0.5), 1], [docs.fnum(0.25), 1]]],     # two terms of one exponent
                           ["spline", 1, True, [[docs.fnum(0.0), docs.fnum(0.0)], [docs.fnum(10.0), docs.fnum(5.0)], [docs.fnum(255.0), docs.fnum(100.0)]]],
                           ["spline", 0, True, [[docs.fnum(0.0), docs.fnum(1.5)], [docs.fnum(128.0), docs.fnum(2.5)]]]])
         ctx = None
@@ -62,8 +63,14 @@ def rnd_user_param(rng, name, earlier_ints):
         return {"name": name, "type": int_type(name, 8, default=cal if rng.random() < 0.8 else None, context=ctx,
                                                tkind=rng.choice(["int", "int", "abstime"]))}, False
     if r < 0.80:   # binary
-        if earlier_ints and rng.random() < 0.6:
+        q = rng.random()
+        if earlier_ints and q < 0.5:
             spec = ["dyn", rng.choice(earlier_ints), rng.random() < 0.5, rng.choice([None, [8, 0], [1, 8]])]
+        elif q < 0.7:
+            # discrete lookup on a header field: the first matching entry decides, also when its value is 0
+            sel = rng.choice(["SEQ_FLGS", "TYPE", "SEC_HDR_FLG"])
+            spec = ["lookup", [[[["cmp", {"ref": sel, "op": "==", "lit": "0", "cal": rng.random() < 0.5}]], rng.choice([0, 0, 8])],
+                               [[["cmp", {"ref": sel, "op": "<=", "lit": "3", "cal": True}]], rng.choice([8, 16, 12])]]]
         else:
             spec = ["fixed", rng.choice([4, 8, 16, 24, 9])]
         return {"name": name, "type": {"name": name + "_T", "kind": "bin", "enc": {"t": "bin", "size": spec}}}, False
@@ -147,6 +154,36 @@ def rnd_definition(rng, apid_name="PKT_APID"):
             grow(c, depth + 1, ints)
     # the root gets a selector byte so that user-data criteria exist
     grow(root, 0, [])
+    if rng.random() < 0.3:
+        # a container that is the base of others, nested (ContainerRefEntry) in a container that is defined BEFORE it and
+        # does not descend from it: one object reached both as a nested entry and as a base
+        base_names = {c["base"] for c in containers if c["base"]}
+        order = {c["name"]: i for i, c in enumerate(containers)}
+        by = {c["name"]: c for c in containers}
+
+        def ancestors(n):
+            out = set()
+            while by[n]["base"]:
+                n = by[n]["base"]
+                out.add(n)
+            return out
+        inner = [c for c in containers if c["name"] in base_names and c["name"] != "CCSDSPacket"]
+        hosts = [c for c in containers if c["name"] not in ("CCSDSPacket", "COMMON")]
+        def reaches(a, target):      # through base and nesting references
+            seen, todo = set(), [a]
+            while todo:
+                x = todo.pop()
+                if x == target:
+                    return True
+                if x not in seen:
+                    seen.add(x)
+                    todo.extend(([by[x]["base"]] if by[x]["base"] else []) + [e[1] for e in by[x]["entries"] if e[0] == "c"])
+            return False
+        pairs = [(h, b) for h in hosts for b in inner if order[h["name"]] < order[b["name"]] and h["name"] != b["name"]
+                 and b["name"] not in ancestors(h["name"]) and not reaches(b["name"], h["name"])]
+        if pairs:
+            h, b = rng.choice(pairs)
+            h["entries"].append(["c", b["name"]])
     return {"params": params, "containers": containers, "root": "CCSDSPacket"}
 
 
